@@ -46,6 +46,17 @@ class Codec(object):
                          arg1=cmd, arg2=burst, arg3=txid, data=b"").bytestring
 
 
+def _guarded_seqs(gen, net, limit):
+    last_tx, draws = -1, 0
+    for v in gen:
+        if net.ntx != last_tx:
+            last_tx, draws = net.ntx, 0
+        draws += 1
+        if draws > limit:
+            raise DidNotTerminate()
+        yield v
+
+
 def run_connection(spec, fates, default=None, overs=(), lifetime=True, label="", max_selects=None):
     """One SCPConnection, the calls of spec["bursts"] one after the other, against a fresh virtual network.
     Returns the trace record.  ScheduleExhausted propagates (the small-scope enumeration extends the schedule)."""
@@ -61,6 +72,9 @@ def run_connection(spec, fates, default=None, overs=(), lifetime=True, label="",
         conn = SCPConnection("virtual-host", n_tries=spec["tries"], timeout=net.seconds(spec["t0"]))
         if spec["seqmod"] != REAL_SEQMOD:
             conn.seq = scp_connection.seqs(mask=spec["seqmod"] - 1)
+        # "always terminates", observed: drawing more sequence numbers than exist without transmitting anything in
+        # between means the client is searching a sequence space it has itself filled - it would search for ever
+        conn.seq = _guarded_seqs(conn.seq, net, spec["seqmod"] + 8)
         for b, bs in enumerate(spec["bursts"], 1):
             ev.append(["burst", b])
 
